@@ -467,7 +467,8 @@ _Closure.returned2 = _returned2
 class _Dispatch:
     """Interpreter for the type-dispatch function of numba.extending.overload: straight-line code, if/else, isinstance tests of
     the parameters against numba type classes, nested implementation functions, module-level factories."""
-    KNOWN = {'Integer': {'Integer'}, 'Boolean': {'Boolean'}, 'Float': {'Float'}}
+    # numba's scalar class hierarchy: Number > {Integer, Float, Complex}; Boolean is not a Number
+    KNOWN = {'Integer': {'Integer'}, 'Boolean': {'Boolean'}, 'Float': {'Float'}, 'Number': {'Integer', 'Float'}, 'Complex': set()}
 
     def __init__(self, mod, kinds, ovparams, array_params=()):
         self.mod, self.kinds, self.ovparams = mod, kinds, ovparams
@@ -576,7 +577,7 @@ class _Dispatch:
             for c in classes:
                 if not (isinstance(c, tuple) and len(c) == 2 and c[0] == 'typeclass'):
                     raise _NoEval(f'type class {unparse(e.args[1])[:40]}')
-                res = res or c[1] == kind
+                res = res or kind in self.KNOWN.get(c[1], {c[1]})
             return res
         if isinstance(e, ast.Call) and isinstance(e.func, ast.Name) and not e.keywords:
             f = self.ev(e.func, env)
